@@ -25,8 +25,8 @@ func (l Lin) clone() Lin {
 	}
 	return Lin{coef: m, c: new(big.Rat).Set(l.c)}
 }
-func (l Lin) add(o Lin) Lin  { return l.addScaled(o, big.NewRat(1, 1)) }
-func (l Lin) sub(o Lin) Lin  { return l.addScaled(o, big.NewRat(-1, 1)) }
+func (l Lin) add(o Lin) Lin    { return l.addScaled(o, big.NewRat(1, 1)) }
+func (l Lin) sub(o Lin) Lin    { return l.addScaled(o, big.NewRat(-1, 1)) }
 func (l Lin) addK(n int64) Lin { return l.add(konst(n)) }
 func (l Lin) addScaled(o Lin, k *big.Rat) Lin {
 	r := l.clone()
